@@ -158,4 +158,17 @@ def from_term(t, leaf):
         inner = t[1][1]
         if isinstance(inner, tuple) and inner[0] == "call" and inner[1].rsplit("::", 1)[-1] in ("from", "to_f64", "cast"):
             return from_term(inner[2][0], leaf)
+    if k == "field":
+        base = t[1]
+        for _ in range(6):
+            if isinstance(base, tuple) and base[0] in ("&", "deref"):
+                base = base[1]
+            elif isinstance(base, tuple) and base[0] == "call" and base[1].rsplit("::", 1)[-1] in ("into", "from", "clone") and len(base[2]) == 1:
+                base = base[2][0]
+            else:
+                break
+        if isinstance(base, tuple) and base[0] == "adt" and base[1].endswith("::Coord") and len(base[3]) == 2 and str(t[2]) in ("x", "y"):
+            return from_term(base[3][0 if str(t[2]) == "x" else 1], leaf)
+        if base is not t[1]:
+            return R(sym(leaf(("field", base, t[2]))))
     return R(sym(leaf(t)))
